@@ -75,6 +75,28 @@ class BufferRoles:
                 self.cls, self.init, self.kinds = c, init, kinds
         if self.cls is None:
             raise AnalysisError('buffer class (asyncio.Queue + asyncio.Event in __init__) not found')
+        self._post_init(ctx, p, u)
+
+    def _reads_timer(self, n) -> bool:
+        """Does `await X` at *n* await the armed timer: X is the timer attribute, or a local that on every path holds
+        what the arming statement stored (`t = self._timer = arm(...)` ... `await t`) or a read of the attribute?"""
+        G = self.G
+        v = n.ast.value
+        if rpath(G, n, v) == self.TIMER:
+            return True
+        if not isinstance(v, ast.Name):
+            return False
+        from ..dataflow import leaves
+        arm_vals = [a.meta.get('value') for a in self.arm if a.meta.get('value') is not None]
+
+        def same(a: ast.AST, b: ast.AST) -> bool:
+            return (getattr(a, 'lineno', None), getattr(a, 'col_offset', None)) == (getattr(b, 'lineno', None), getattr(b, 'col_offset', None)) \
+                and norm(a) == norm(b)
+        lfs = leaves(G, n, v)
+        return bool(lfs) and all(any(same(lf, av) for av in arm_vals) or (isinstance(lf, ast.Attribute) and norm(lf) == self.TIMER)
+                                 for lf in lfs)
+
+    def _post_init(self, ctx, p, u) -> None:
         cls = self.cls
         self.q = next(a for a, (k, _) in self.kinds.items() if k == 'asyncio.Queue')
         self.flag = next(a for a, (k, _) in self.kinds.items() if k == 'asyncio.Event')
@@ -111,7 +133,7 @@ class BufferRoles:
         if self.timer:
             self.arm = [n for n in G.nodes if n.kind == 'store_attr' and self_attr(n.ast) == self.timer]
         self.TIMER = f'self.{self.timer}' if self.timer else None
-        self.timed_get = [n for n in G.nodes if n.kind == 'await' and self.TIMER and rpath(G, n, n.ast.value) == self.TIMER]
+        self.timed_get = [n for n in G.nodes if n.kind == 'await' and self.TIMER and self._reads_timer(n)]
         self.done = [n for n in G.nodes if is_meth(G, n, self.Q, 'task_done')]
         self.clear = [n for n in G.nodes if is_meth(G, n, self.FLAG, 'clear')]
         self.set_ = [n for n in G.nodes if is_meth(G, n, self.FLAG, 'set')]
